@@ -1,14 +1,14 @@
 #!/usr/bin/env python3
-"""tools/mutate_sweep.py [--ops boundary|offbyone|all] [--only <substring of file>] [--out DIR]
+"""tools/mutate_sweep.py [--ops boundary|offbyone|eq|logic|compound|minmax|bool|stmt|arith|more|all] [--only <substring of file>] [--out DIR] [--worker k/N]
 
 Systematic self-test of the checks ("demonstrate detection, not just silence"): enumerates small
 syntactic changes of the library's non-test, non-Python-binding source (comparison strictness flips;
 optionally +-1 constants), and for each one
-  1. applies it in the scratch worktree /tmp/vfy and runs the repository's own 81 tests there
+  1. applies it in the scratch worktree /tmp/mut/w<k>/wt and runs the repository's own 81 tests there
      (a change the tests already catch is of no interest),
   2. if the tests still pass, runs the quick tier of the checks responsible for that file against the
      changed scratch worktree: a scratch copy of /verif (check, engine/, known_findings.json) under
-     /tmp/mutverif whose engine depends on /tmp/vfy instead of /repo, so that /repo and /verif are never
+     /tmp/mut/w<k>/verif whose engine depends on the scratch worktree /tmp/mut/w<k>/wt instead of /repo, so that /repo and /verif are never
      touched and ordinary work on them can go on meanwhile; records which checks report the change.
 Nothing is committed anywhere. Output: <out>/results.jsonl (one line per change) and the patches of the
 changes that no check reported (to be analysed by hand: equivalent change, or a gap).
@@ -16,9 +16,16 @@ changes that no check reported (to be analysed by hand: equivalent change, or a 
 import glob, json, os, re, subprocess, sys
 
 REPO = "/repo"
-VFY = "/tmp/vfy"
-MUTVERIF = "/tmp/mutverif"
-ENV = dict(os.environ, CARGO_TARGET_DIR="/tmp/vfy_target", CARGO_NET_OFFLINE="true", RUST_BACKTRACE="0")
+ROOT = "/tmp/mut"          # per worker k: ROOT/w<k>/{wt,target,verif,out}
+VFY = MUTVERIF = MUTOUT = None
+ENV = None
+
+
+def set_worker(k):
+    global VFY, MUTVERIF, MUTOUT, ENV
+    base = f"{ROOT}/w{k}"
+    VFY, MUTVERIF, MUTOUT = base + "/wt", base + "/verif", base + "/out"
+    ENV = dict(os.environ, CARGO_TARGET_DIR=base + "/target", CARGO_NET_OFFLINE="true", RUST_BACKTRACE="0")
 
 CHECKS = [
     ("src/track/utils.rs", "C16"),
@@ -116,6 +123,34 @@ def mutants(ops, only):
             if ops in ("offbyone", "all"):
                 for m in re.finditer(r"(?<= )([+-]) 1(?![0-9.])", l):
                     res.append((f, i, m.start(), m.group(0), "", "drop+-1"))
+            if ops in ("eq", "all", "more"):
+                for m in re.finditer(r"(?<= )(==|!=)(?= )", l):
+                    res.append((f, i, m.start(), m.group(1), {"==": "!=", "!=": "=="}[m.group(1)], "eq"))
+            if ops in ("logic", "all", "more"):
+                for m in re.finditer(r"(?<= )(&&|\|\|)(?= )", l):
+                    if "move ||" in l or re.search(r"\|\| \{", l) and "if " not in l and "while " not in l:
+                        continue
+                    res.append((f, i, m.start(), m.group(1), {"&&": "||", "||": "&&"}[m.group(1)], "logic"))
+            if ops in ("compound", "all", "more"):
+                for m in re.finditer(r"(?<= )(\+=|-=)(?= )", l):
+                    res.append((f, i, m.start(), m.group(1), {"+=": "-=", "-=": "+="}[m.group(1)], "compound"))
+            if ops in ("minmax", "all", "more"):
+                for m in re.finditer(r"\.(min|max)\(", l):
+                    res.append((f, i, m.start(1), m.group(1), {"min": "max", "max": "min"}[m.group(1)], "minmax"))
+            if ops in ("bool", "all", "more"):
+                for m in re.finditer(r"\b(true|false)\b", l):
+                    if "const " in l or "struct " in l:
+                        continue
+                    res.append((f, i, m.start(1), m.group(1), {"true": "false", "false": "true"}[m.group(1)], "bool"))
+            if ops in ("stmt", "all", "more"):
+                m = re.match(r"^(\s+)([\w\.\*\[\]\(\)&:]+\.(push|push_back|push_front|insert|remove|clear|truncate|pop_front|pop_back|sort_by|retain|extend|notify_one|notify_all|dedup|reverse)\(.*\);)\s*$", l)
+                if m:
+                    res.append((f, i, len(m.group(1)), m.group(2), "{}", "drop-stmt"))
+            if ops in ("arith", "all"):
+                if re.search(r"\b(where|impl|dyn|fn)\b|^\s*[A-Z]\w*:|'static", l):
+                    continue
+                for m in re.finditer(r"(?<=[\w\)\]] )([+\-*/])(?= [\w\(\-])", l):
+                    res.append((f, i, m.start(), m.group(1), {"+": "-", "-": "+", "*": "/", "/": "*"}[m.group(1)], "arith"))
     return res
 
 
@@ -132,6 +167,7 @@ def main():
     ops = "boundary"
     only = None
     out = "/tmp/mutsweep"
+    worker, nworkers = 0, 1
     a = sys.argv[1:]
     while a:
         k = a.pop(0)
@@ -141,24 +177,28 @@ def main():
             only = a.pop(0)
         elif k == "--out":
             out = a.pop(0)
+        elif k == "--worker":
+            worker, nworkers = [int(x) for x in a.pop(0).split("/")]
+    set_worker(worker)
     os.makedirs(out, exist_ok=True)
+    os.makedirs(os.path.dirname(VFY), exist_ok=True)
     if not os.path.isdir(VFY):
         sh(f"git -C {REPO} worktree add --detach {VFY} HEAD")
     # scratch copy of the checks, bound to the scratch worktree
-    sh(f"rm -rf {MUTVERIF}/engine/src {MUTVERIF}/check; mkdir -p {MUTVERIF}/engine /tmp/mutverif_out && cp -r /verif/check /verif/known_findings.json {MUTVERIF}/ && cp -r /verif/engine/src /verif/engine/Cargo.toml /verif/engine/Cargo.lock /verif/engine/.cargo {MUTVERIF}/engine/ && cp /verif/known_findings.json /tmp/mutverif_out/")
+    sh(f"rm -rf {MUTVERIF}/engine/src {MUTVERIF}/check; mkdir -p {MUTVERIF}/engine {MUTOUT} && cp -r /verif/check /verif/known_findings.json {MUTVERIF}/ && cp -r /verif/engine/src /verif/engine/Cargo.toml /verif/engine/Cargo.lock /verif/engine/.cargo {MUTVERIF}/engine/ && cp /verif/known_findings.json {MUTOUT}/")
     sh(f"sed -i 's#path = \"/repo\"#path = \"{VFY}\"#' {MUTVERIF}/engine/Cargo.toml && sed -i 's#/verif/target#{MUTVERIF}/target#' {MUTVERIF}/engine/.cargo/config.toml")
     head = sh(f"git -C {REPO} rev-parse HEAD")[1].strip()
     sh(f"git checkout -q --detach {head} && git checkout -q -- . && git clean -fdq", cwd=VFY)
     ms = mutants(ops, only)
     print(f"{len(ms)} changes", flush=True)
     done = set()
-    resf = os.path.join(out, "results.jsonl")
-    if os.path.exists(resf):
-        for l in open(resf):
+    resf = os.path.join(out, f"results_w{worker}.jsonl")
+    for rf in glob.glob(os.path.join(out, "results*.jsonl")):
+        for l in open(rf):
             r = json.loads(l)
             done.add((r["file"], r["line"], r["col"], r["old"]))
     for n, (f, i, col, old, new, kind) in enumerate(ms):
-        if (f, i + 1, col, old) in done:
+        if n % nworkers != worker or (f, i + 1, col, old) in done:
             continue
         rec = {"file": f, "line": i + 1, "col": col, "old": old, "new": new, "kind": kind}
         sh("git checkout -q -- .", cwd=VFY)
@@ -169,12 +209,12 @@ def main():
         if "81 passed" not in o:
             rec["status"] = "does-not-compile" if "error" in o and "Summary" not in o else "killed-by-the-repository-tests"
         else:
-            patch = os.path.join(out, f"m{n:03d}.diff")
+            patch = os.path.join(out, f"{ops}{n:03d}.diff")
             sh(f"git diff > {patch}", cwd=VFY)
             ids = checks_for(f)
             o = ""
             for cid in ids.split():
-                rc, oo = sh(f"./check {cid} quick 2>/dev/null", cwd=MUTVERIF, env=dict(os.environ, VERIF_DIR="/tmp/mutverif_out"))
+                rc, oo = sh(f"./check {cid} quick 2>/dev/null", cwd=MUTVERIF, env=dict(os.environ, VERIF_DIR=MUTOUT))
                 keys = " ".join(re.findall(r"^  key=(\S+)", oo, re.M))[:300]
                 o += f"{cid} rc={rc} {keys}\n"
             rec["checks_run"] = ids.split()
